@@ -19,8 +19,9 @@ import (
 // is waiting for its backend connection to be established (the connect takes its time), then Stop.
 //
 // alphabet  notice in {replace with the same hosts, replace with the other node only, remove the node, add it
-//           again} x the request goes to node 0 | 1
-// bound     all schedules P1 F1 Sel1 (quick) / P2 F2 Sel1 (thorough)
+//           again} x the request goes to node 0 | 1 x it waits for a slow connect | it is being MOVED-redirected to
+//           the other node (to which no connection exists yet)
+// bound     all schedules P1 (quick) / P1 F1 Sel1 (thorough)
 // oracle    the notice returns, Stop returns, the port is closed, every connection of the proxy is closed, no
 //           goroutine is left
 // ---------------------------------------------------------------------------
@@ -28,6 +29,9 @@ import (
 func c09redisReplaceBody() {
 	notice := []string{"replace-same", "replace-other", "remove", "add"}[sched.Choose(sched.ClsInput, 4, "notice")]
 	target := sched.Choose(sched.ClsInput, 2, "node")
+	// redirected: instead of waiting for a slow connect, the request is answered MOVED by its node (the slot group
+	// has just moved to the other node) and the notice races with the read loop that follows the redirection
+	redirected := sched.Choose(sched.ClsInput, 2, "redirected") == 1
 	restore := proc.VerifSetListenFunc(vnet.Listen)
 	sched.OnReset(restore)
 	cl := cluster.New(2, 0, 2)
@@ -39,11 +43,17 @@ func c09redisReplaceBody() {
 	sched.AdvanceTime(int64(slotsRefMinRate) + 1)
 	sched.WaitQuiescent()
 	// every backend connection is lost; the next request has to connect again, and that takes its time
-	for _, n := range cl.Nodes {
-		n.CloseConns()
+	if redirected {
+		cl.Nodes[1-target].CloseConns() // no connection to the node the request will be redirected to
+		sched.WaitQuiescent()
+		cl.MoveGroup(target, cl.Nodes[1-target])
+	} else {
+		for _, n := range cl.Nodes {
+			n.CloseConns()
+		}
+		sched.WaitQuiescent()
+		vnet.HoldDials(true, seeds...)
 	}
-	sched.WaitQuiescent()
-	vnet.HoldDials(true, seeds...)
 	c, err := vnet.DialConn(c09redisAddr)
 	if err != nil {
 		sched.Fail("harness-dial", err.Error())
@@ -51,7 +61,9 @@ func c09redisReplaceBody() {
 	}
 	c.Label = "client"
 	c.Write(resp.Encode(resp.Cmd("GET", cl.KeyInGroup("k", target, 0))))
-	sched.WaitQuiescent()
+	if !redirected {
+		sched.WaitQuiescent()
+	}
 	noticed := false
 	sched.GoNamed("endpoint-notice", func() {
 		h0, h1 := host.New(seeds[0]), host.New(seeds[1])
@@ -71,6 +83,9 @@ func c09redisReplaceBody() {
 	vnet.HoldDials(false) // the connects complete now
 	sched.WaitQuiescent()
 	tag := fmt.Sprintf("notice=%s while a request waits for the connection to node %d", notice, target)
+	if redirected {
+		tag = fmt.Sprintf("notice=%s while a request to node %d is being redirected", notice, target)
+	}
 	if !noticed {
 		sched.Fail("endpoint-notice-never-returns / redis / "+notice, tag)
 		return
@@ -106,9 +121,9 @@ func c09redisReplaceBody() {
 
 func init() {
 	sched.Register(&sched.Scenario{Name: "C09/redis-replace", Setup: func(tier string) (sched.Config, func()) {
-		b := sched.Bounds{P: 1, F: 1, Sel: 1}
+		b := sched.Bounds{P: 1}
 		if tier == "thorough" {
-			b = sched.Bounds{P: 2, F: 2, Sel: 1}
+			b = sched.Bounds{P: 1, F: 1, Sel: 1}
 		}
 		return sched.Config{Bounds: b, Iterative: true, MaxSteps: 100000}, c09redisReplaceBody
 	}})
